@@ -25,7 +25,7 @@ RULE = (
     "on all such batches. Non-trivial = the batch contains >=2 different pool rows."
 )
 ASSUMPTIONS = [
-    "agreement to 1e-9*scale (float64; BLAS results differ by a few ulp between batch sizes and ill-conditioned triangular solves amplify that to 1e-12, so bit-equality is not demanded; batch mixing gives O(1) differences)",
+    "agreement to 1e-7*scale (float64; BLAS results differ by a few ulp between batch sizes and ill-conditioned solves / iterated autoregressive inverses amplify that up to 1e-9 relative, so bit-equality is not demanded; batch mixing gives O(1) differences)",
     "evaluation mode only (the property's scope)",
     "pool rows avoid conditioner-dependent knots except under the all-zero pattern (where knot positions do not depend on batch arithmetic)",
 ]
@@ -147,7 +147,7 @@ def run_transform_case(sname, cfg, pname, seed, tier, res=None, only=None):
                     sc = max(1.0, float(ry.abs().max()))
                     dy = float((y[pos] - ry).abs().max())
                     dl = abs(float(ld[pos] - rl))
-                    if not (dy <= 1e-9 * sc) or not (dl <= 1e-9 * max(1.0, abs(float(rl)))):
+                    if not (dy <= 1e-7 * sc) or not (dl <= 1e-7 * max(1.0, abs(float(rl)))):
                         bad = "row %d of batch %s (pool row %d): outputs differ by %.3g, logabsdet by %.3g from the batch-size-1 evaluation" % (pos, list(b), i, dy, dl)
                         break
             if res is not None:
@@ -224,7 +224,7 @@ def run_dist_case(dname, cfg, pname, seed, tier, res=None, only=None):
                 for pos, i in enumerate(b):
                     sc = max(1.0, float(refs[i].abs().max()))
                     dd = float((out[pos] - refs[i]).abs().max())
-                    if not dd <= 1e-9 * sc:
+                    if not dd <= 1e-7 * sc:
                         bad = "row %d of batch %s (pool row %d) differs by %.3g from the batch-size-1 evaluation" % (pos, list(b), i, dd)
                         break
             if res is not None:
